@@ -6,8 +6,8 @@
 //! iterator collected first and deserialized afterwards in REVERSE order: a `DeserializerItem` is a stand-alone handle),
 //! and `top` — the `Deserializer` itself driven through every `serde::Deserializer` method: `seq`, `tuple`,
 //! `tuple_struct`, `any`, `newtype` (documented to give the sequence of records), `ignored`, and the methods that must
-//! refuse with an error (`bool`, `i64`, `u8`, `f64`, `char`, `str`, `string`, `bytes`, `byte_buf`, `option`, `unit`,
-//! `unit_struct`, `map`, `struct`, `enum`, `identifier`, `i128`).
+//! refuse with an error (all 25: the integers and floats, `bool`, `char`, `str`, `string`, `bytes`, `byte_buf`, `option`,
+//! `unit`, `unit_struct`, `map`, `struct`, `enum`, `identifier`).
 use crate::outcome;
 use crate::rng::Rng;
 use crate::Ctx;
@@ -95,9 +95,9 @@ fn gen_ops(rng: &mut Rng, len: usize, n: usize) -> Vec<Value> {
 }
 
 const TOP_SEQ: [&str; 5] = ["seq", "tuple", "tuple_struct", "any", "newtype"];
-const TOP_REFUSED: [&str; 17] = [
+const TOP_REFUSED: [&str; 25] = [
     "bool", "i64", "u8", "f64", "char", "str", "string", "bytes", "byte_buf", "option", "unit", "unit_struct", "map", "struct", "enum",
-    "identifier", "i128",
+    "identifier", "i128", "i8", "i16", "i32", "u16", "u32", "u64", "u128", "f32",
 ];
 
 /// API coverage: a few more requests per case, drawn from a stream of their own and inserted at random positions
@@ -247,6 +247,14 @@ fn top_level(d: serde_arrow::Deserializer<'_>, how: &str) -> Result<Value, serde
         "enum" => refused(d.deserialize_enum("E", &["A"], Records)),
         "identifier" => refused(d.deserialize_identifier(Records)),
         "i128" => refused(d.deserialize_i128(Records)),
+        "i8" => refused(d.deserialize_i8(Records)),
+        "i16" => refused(d.deserialize_i16(Records)),
+        "i32" => refused(d.deserialize_i32(Records)),
+        "u16" => refused(d.deserialize_u16(Records)),
+        "u32" => refused(d.deserialize_u32(Records)),
+        "u64" => refused(d.deserialize_u64(Records)),
+        "u128" => refused(d.deserialize_u128(Records)),
+        "f32" => refused(d.deserialize_f32(Records)),
         other => panic!("harness: unknown top-level method {other}"),
     }
 }
